@@ -71,10 +71,10 @@ def step {α} [Num α] (expFn : ExportFn α) (p : Params α) (x : α × α × α
     let activityFactor := activityFactor p yr
     if Num.feq runoffRate 0 || Num.feq annualRunoff 0 then ⟨0, 0, Num.zero, Num.zero⟩
     else
-      let (fine, coarse) := expFn runoffRate annualRunoff p.area propFine activityFactor p.managementPracticeFactor
+      let loads := expFn runoffRate annualRunoff p.area propFine activityFactor p.managementPracticeFactor
         annualLoad p.annualAverageSedimentSupply p.longtermRunoffFactor p.dailyRunoffPowerFactor
-      let fine := fine / p.timestepInSeconds
-      let coarse := coarse / p.timestepInSeconds
+      let fine := loads.1 / p.timestepInSeconds
+      let coarse := loads.2 / p.timestepInSeconds
       ⟨fine * (p.sdrFine * 0.01), coarse * (p.sdrCoarse * 0.01), fine, coarse⟩
 
 def run {α} [Num α] (expFn : ExportFn α) (p : Params α) (q yr ar al : List α) : List (Out α) :=
